@@ -283,3 +283,64 @@ func (vc *VC) sortSearch(c *ssa.CallCommon, pos token.Pos) (SVal, bool) {
 	vc.fact(R, implies(g2, not(f2)))
 	return r, true
 }
+
+
+// Deferred function literals.
+//
+// `defer func() { if !done { ch.Free() } }()` - a literal that is loop-free, defers nothing, starts
+// no goroutine, builds no closure and does not call recover - is executed in place at every
+// RunDefers point like a contract-less helper (inlineCall): its free variables are bound to the
+// cells the MakeClosure instruction captured, so it reads the values those variables have when the
+// function returns. A literal that calls recover (or contains anything else of the list above)
+// keeps the function out of subset. The panic exit is not modelled (as for every defer).
+func deferredLiteralOK(mc *ssa.MakeClosure) string {
+	f, ok := mc.Fn.(*ssa.Function)
+	if !ok || len(f.Blocks) == 0 {
+		return "no body"
+	}
+	if len(f.Blocks) > 40 {
+		return "more than 40 blocks"
+	}
+	if f.Recover != nil {
+		return "the literal defers"
+	}
+	for _, b := range f.Blocks {
+		for _, s := range b.Succs {
+			if s.Dominates(b) {
+				return "the literal has a loop"
+			}
+		}
+		for _, ins := range b.Instrs {
+			switch x := ins.(type) {
+			case *ssa.Defer, *ssa.RunDefers, *ssa.Go, *ssa.Select, *ssa.MakeClosure:
+				return "defer / go / select / closure inside the literal"
+			case *ssa.Call:
+				if bi, isB := x.Call.Value.(*ssa.Builtin); isB && bi.Name() == "recover" {
+					return "the literal calls recover"
+				}
+			}
+		}
+	}
+	return ""
+}
+
+func (vc *VC) runDeferred(d *ssa.Defer) {
+	mc, lit := d.Call.Value.(*ssa.MakeClosure)
+	if !lit || strings.HasSuffix(mc.Fn.Name(), "$bound") {
+		vc.call(d.Common(), nil, d.Pos())
+		return
+	}
+	f := mc.Fn.(*ssa.Function)
+	if why := deferredLiteralOK(mc); why != "" || len(vc.inl) >= 3 {
+		unsup("deferred function literal cannot be executed in place (%s)", why)
+	}
+	for i, fv := range f.FreeVars {
+		vc.vals[fv] = vc.val(mc.Bindings[i])
+	}
+	var args []SVal
+	for _, a := range d.Call.Args {
+		args = append(args, vc.val(a))
+	}
+	vc.nCalls++
+	vc.inlineCall(f, f.String(), args, d.Pos())
+}
